@@ -3,7 +3,7 @@
    entry and with renames and deletions naming entry and parent, which the printed code has on a
    bounded exhaustive sweep (first two theorems). *)
 From Coq Require Import List String Bool.
-From AM Require Import Rust.Ast Ref.Watcher Proofs.Watcher Tie.Watcher.
+From AM Require Import Rust.Ast Ref.Watcher Proofs.Watcher Tie.Watcher Gen.Private Tie.Graph.
 Import ListNotations.
 
 Theorem C12_code_id_of_path_is_model_on_the_sweep :
@@ -62,6 +62,11 @@ Theorem C12_events_name_the_parent : forall fixed_root roots is_dir k p q r e,
                                               | Some e => [e] | None => [] end) roots)
           (event_paths true k p)).
 Proof. exact events_cover_parent. Qed.
+
+(* the direction the theorems invert: FileSystem::path_of as printed is root / segments of the id,
+   the extension set through set_extension (an empty extension adds nothing, no trailing dot) *)
+Theorem C12_code_path_of_entry : path_of_entry_wf path_of_entry = true.
+Proof. exact path_of_entry_as_specified. Qed.
 
 Example C12_nonvacuous :
   id_of_path true [CNormal "r"] (path_of [CNormal "r"] (EFile ["d"; "a"] "x")) false = Some (EFile ["d"; "a"] "x")
